@@ -270,7 +270,9 @@ def gen_block(draw, depth, ind, state):
         elif k == "expr":
             lines.append(draw(st.sampled_from(["pass", f"'string statement {i}'", f"{i}", "..."])))
         elif k in ("def", "adef"):
-            decos = draw(st.lists(st.sampled_from(["@deco", "@deco_factory(1)", "@m.deco", "@deco_factory(\n    2)"]), max_size=3))
+            # (since PEP 614 a decorator is any expression: a subscript, a call of a call, a conditional, a lambda)
+            decos = draw(st.lists(st.sampled_from(["@deco", "@deco_factory(1)", "@m.deco", "@deco_factory(\n    2)", "@deco_map[\"k\"]", "@deco_factory2(1)(2)",
+                                                   "@(deco if True else m.deco)", "@(lambda f: f)"]), max_size=3))
             for dline in decos:
                 lines.extend(dline.split("\n"))
             head = f"{'async ' if k == 'adef' else ''}def f{i}({draw(st.sampled_from(['', 'x=1', 'x: int = 1, *a, **k', 'x, /, y=2, *, z=3']))}){draw(st.sampled_from(['', ' -> int']))}:"
@@ -334,7 +336,7 @@ def gen_block(draw, depth, ind, state):
 
 
 PRELUDE = [
-    "import contextlib", "import types as _types", "deco = lambda f: f", "deco_factory = lambda n: (lambda f: f)", "m = _types.SimpleNamespace(deco=deco)",
+    "import contextlib", "import types as _types", "deco = lambda f: f", "deco_factory = lambda n: (lambda f: f)", "deco_map = {'k': deco}", "deco_factory2 = lambda n: (lambda k: (lambda f: f))", "m = _types.SimpleNamespace(deco=deco)",
     "cm = contextlib.nullcontext", "Base = object", "_once = [True]", "def once():", "    return _once.pop() if _once else False",
 ]
 
